@@ -31,6 +31,9 @@ RULE = ("exhaustive: every pairing handler configuration (mrp, companion, compan
         "run; non-trivial = a fault was injected after at least one successful reply or the run is fault-free; "
         "distinct = (handler, prior credentials, index, kind, variant)")
 ASSUMPTIONS = [
+    "\"pairing or connection error\" = exceptions.PairingError, ConnectionFailedError, ConnectionLostError or a builtin "
+    "OSError (ConnectionRefusedError from the unwrapped http_connect in AirPlayPairingHandler.begin, TimeoutError); "
+    "any other class (AuthenticationError, KeyError, ...) is reported as escaping",
     "one transport.write of the fake device is one reply message (true for tests/fake_device and BasicHttpServer)",
     "a reply that never arrives is observed through the handlers' own timeouts on a virtual clock",
     "DMAP: only faults on the inbound /pair request are enumerated; loss of the HTTP response after the PIN was "
@@ -984,6 +987,30 @@ def oracle(name, obs, fault):
     return out
 
 
+def probe_error_handler():
+    """pyatv.support.error_handler(func, PairingError) on the exception each fault kind produces
+    inside a procedure: timeout / missing key / error TLV / undecodable data / lost connection."""
+    from pyatv import exceptions
+    from pyatv.support import error_handler
+    inner = {"dropped": asyncio.TimeoutError("no response"), "missing": KeyError("salt"),
+             "error": exceptions.AuthenticationError("error tlv"), "wrongpin": exceptions.AuthenticationError("pin"),
+             "garbage": ValueError("undecodable"), "disconnect": exceptions.ConnectionLostError("lost")}
+    out = []
+    for kind, exc in inner.items():
+        async def raiser(exc=exc):
+            raise exc
+
+        async def call():
+            try:
+                await error_handler(raiser, exceptions.PairingError)
+            except Exception as ex:  # observation
+                return ex
+            return None
+
+        out.append((kind, _err_class(vloop.run(call)) or "none"))
+    return out
+
+
 def case_rng(ctx, name, prior, fault, rep=0):
     return ctx.rng.fork(name, int(prior), *(fault or ("none",)), rep)
 
@@ -1050,6 +1077,10 @@ def run(ctx, only=None):
                     pending.append(("run", case, canon_obs(obs)))
     if only is not None:
         return
+    # --- error_handler itself: what class reaches the caller for each kind of inner failure
+    for kind, cls in probe_error_handler():
+        lines.append("errclass handler " + kind)
+        pending.append(("errclass", {"handler": "error_handler", "kind": kind}, cls))
     answers = ctx.lean(lines)
     for (what, case, impl), ans, line in zip(pending, answers, lines):
         model = ans
